@@ -853,6 +853,17 @@ def atom_sig(a, fn):
             "bracket": SIG_BRACKET, "edifci": SIG_EDIFCI}[a]
 
 
+_OPEN = None
+
+
+def open_signatures():
+    global _OPEN
+    if _OPEN is None:
+        from common import findings
+        _OPEN = set(f["signature"] for f in findings.load() if f.get("property") == "C13" and f.get("status") == "open")
+    return _OPEN
+
+
 def classify(case, pats, is_case, is_re, fast, got):
     """signatures of the smallest set of known defect classes that explains `got` exactly, else None"""
     import itertools
@@ -875,8 +886,12 @@ def classify(case, pats, is_case, is_re, fast, got):
             return None     # the defect-free mirror gives this result too: no known defect is *needed* to explain it
     except Exception:
         return None
-    for n in (1, 2, 3):
-        for sub in itertools.combinations(atoms, n):
+    # explanations made of findings that are still open are preferred over ones that need a defect
+    # class already repaired in /repo (the same output can have two explanations)
+    opens = [a for a in atoms if atom_sig(a, case.fn) in open_signatures()]
+    plan = [(opens, n) for n in (1, 2, 3)] + [(atoms, n) for n in (1, 2, 3)]
+    for pool, n in plan:
+        for sub in itertools.combinations(pool, n):
             if "multiroot" in sub and "multiroot+forcegate" in sub:
                 continue
             ds = set()
